@@ -80,6 +80,9 @@ fn thread_cpu_ms() -> u64 {
 /// "does not terminate promptly"; CPU time, not wall time, so machine load cannot raise it.
 pub const SLOW_RUN_CPU_MS: u64 = 3000;
 
+/// distinct-case hashes kept per worker process; beyond it distinct_nontrivial is a lower bound
+pub const DISTINCT_CAP_PER_WORKER: usize = 1_500_000;
+
 pub fn mono_secs_f64() -> f64 {
     mono_ms() as f64 / 1000.0
 }
@@ -225,12 +228,18 @@ pub fn worker_main(a: WorkerArgs) -> i32 {
             let g = &mut *g;
             g.rep.runs += 1;
             g.rep.evaluations += st.evaluations.max(1);
+            // the distinct set is capped per worker (memory); beyond the cap the count is a lower bound
+            let room = g.nontrivial.len() < DISTINCT_CAP_PER_WORKER;
             if let Some(h) = st.nontrivial {
-                g.nontrivial.insert(h);
+                if room {
+                    g.nontrivial.insert(h);
+                }
             }
             let had_many = !st.nontrivial_many.is_empty();
             for h in st.nontrivial_many.drain(..) {
-                g.nontrivial.insert(h);
+                if room {
+                    g.nontrivial.insert(h);
+                }
             }
             for s in st.states.drain(..) {
                 g.states.insert(s);
